@@ -8,6 +8,7 @@ import numpy as np
 from hypothesis import strategies as st
 
 from vlib.core import Part, Violation, Discard, Watchdog, call, lib_frames, VERIF
+from vlib import forms
 
 from mitxgraders import (RealInterval, IntegerRange, ComplexRectangle, ComplexSector, DiscreteSet,
                          SpecificFunctions, RandomFunction, RealVectors, ComplexVectors, RealMatrices,
@@ -206,7 +207,7 @@ def build_scalar(sp):
             kw['re'] = rng_arg(re_, sp.get('form'))
         if im_ is not None:
             kw['im'] = rng_arg(im_, sp.get('form'))
-        s = ComplexRectangle(**kw)
+        s = forms.make(ComplexRectangle, kw)
         re_ = re_ if re_ is not None else (1, 3)
         im_ = im_ if im_ is not None else (1, 3)
 
@@ -223,7 +224,7 @@ def build_scalar(sp):
             kw['modulus'] = rng_arg(mod, sp.get('form'))
         if arg is not None:
             kw['argument'] = rng_arg(arg, sp.get('form'))
-        s = ComplexSector(**kw)
+        s = forms.make(ComplexSector, kw)
         mod = mod if mod is not None else (1, 3)
         arg = arg if arg is not None else (0, math.pi / 2)
         mlo, mhi = min(mod), max(mod)
@@ -372,7 +373,7 @@ def judge_identity(spec, rec):
     # 'complex' and 'norm' are documented as ignored
     if spec.get('norm') is not None:
         kw['norm'] = spec['norm']
-    s = IdentityMatrixMultiples(**kw)
+    s = forms.make(IdentityMatrixMultiples, kw)
     rivals_then_seed(s, spec['seed'], rec)
     k = spec['k']
     firsts = []
@@ -560,7 +561,7 @@ def judge_randfunc(spec, rec):
     cfg = dict(RF_DEFAULTS, **opts)
     in_dim, out_dim = cfg['input_dim'], cfg['output_dim']
     center, amp, cx = cfg['center'], cfg['amplitude'], cfg['complex']
-    s = RandomFunction(**opts)
+    s = forms.make(RandomFunction, opts)
     # classes count what the generator reached (also when the case then ends in a violation)
     rec.cls('randfunc/input_dim=1' if in_dim == 1 else 'randfunc/input_dim>1')
     if cx:
@@ -706,7 +707,7 @@ def judge_array(spec, rec):
         kw['triangular'] = tri
     if spec.get('say_complex'):
         kw['complex'] = cx          # stating the only allowed value explicitly is documented as legal
-    s = C(**kw)
+    s = forms.make(C, kw)
     rivals_then_seed(s, spec['seed'], rec)
     what = '%s(%s)' % (spec['cls'], ', '.join('%s=%r' % kv for kv in sorted(kw.items())))
     first = None
